@@ -46,3 +46,23 @@ def export_tau(version, path=None):
         json.dump(doc, f)
     os.replace(tmp, path)
     return path
+
+
+def export_atmosphere(path=None):
+    """layer table of the standard atmosphere as the implementation ships it (nuspacesim.constants)"""
+    from . import use_repo
+    use_repo()
+    from nuspacesim import constants as c
+    from .f64 import bits
+    path = path or os.path.join(BUILD, "atmosphere.json")
+    doc = {"re": bits(c.earth_radius), "gmr": bits(c.std_atm_gmr),
+           "hb": bits_array(np.asarray(c.std_atm_geopotential_height[:8], dtype=float)),
+           "lb": bits_array(np.asarray(c.std_atm_lack_rate[:8], dtype=float)),
+           "tb": bits_array(np.asarray(c.std_atm_temperature[:8], dtype=float)),
+           "pb": bits_array(np.asarray(c.std_atm_pressure[:8], dtype=float))}
+    os.makedirs(os.path.dirname(path), exist_ok=True)
+    tmp = path + f".{os.getpid()}.tmp"
+    with open(tmp, "w") as f:
+        json.dump(doc, f)
+    os.replace(tmp, path)
+    return path
